@@ -126,3 +126,30 @@ Fixpoint chk_hist_from (i : Z) (tol tau b : Q) (k n : nat) (p : positive)
 
 Definition chk_history (tol tau b : Q) (k n : nat) (p : positive) (recs : list srec) : Z :=
   chk_hist_from 0 tol tau b k n p [] [] 0 (zeros n) recs.
+
+(* ---------- sketches inside optimizer state (no captured SVD: state invariants only) ---------- *)
+(* codes 4..7 as in chk_hist_from; the exact covariance is rebuilt from the gradients and the
+   per-step ridge on the previously stored directions *)
+Fixpoint chk_states_from (i : Z) (tol tau b : Q) (n : nat) (p : positive)
+         (V : list vec) (C : mat) (recs : list srec) : Z :=
+  match recs with
+  | [] => 0%Z
+  | r :: rest =>
+    let R := ridge_mat n V (r_epsR r) in
+    let C' := madd (mscale b (madd C R)) (gram (r_G r)) in
+    let tauC := tau * trace C' in
+    let epsroot := r_eps_abs r + r_eps_rel r * maxabs_vec (map (fun x => x + r_t r) (r_l r)) in
+    let code :=
+      if negb (ortho_or_zero tol (r_V r)) then 4%Z
+      else if negb (chk_nonneg (r_l r) (r_t r)) then 5%Z
+      else if negb (chk_bracket tauC n C' (r_V r) (r_l r) (r_t r)) then 6%Z
+      else if negb (chk_roots tol p (r_inv r) (r_l r) (r_t r) epsroot &&
+                    (if Qeq_bool (r_const r) 0 then true
+                     else chk_root1 tol p (r_const r) (r_t r + epsroot))) then 7%Z
+      else 0%Z in
+    if (code =? 0)%Z then chk_states_from (i + 1) tol tau b n p (r_V r) C' rest
+    else (100 * i + code)%Z
+  end.
+
+Definition chk_states (tol tau b : Q) (n : nat) (p : positive) (recs : list srec) : Z :=
+  chk_states_from 0 tol tau b n p [] (zeros n) recs.
